@@ -473,13 +473,14 @@ type spec struct {
 	zombies   map[int]bool                         // events of an index that was deleted, re-created and deleted again in one process
 	aliasEver map[int64]map[string]map[string]bool // alias -> indexes it ever pointed to
 	aliasCut  map[int64]map[string]bool            // alias from which at least one index was removed
+	hadOpen   map[int64]map[string]bool            // index lost its files (delete-index of that name) while it had flushed, unrotated data
 }
 
 func newSpec() *spec {
 	s := &spec{evOrg: map[int]int64{}, evTab: map[int]string{}, live: map[int]bool{},
 		tables: map[int64]map[string]bool{}, alias: map[int64]map[string]map[string]bool{}, adir: map[int64]bool{0: true},
 		delPhase: map[int64]map[string]bool{}, recreated: map[int64]map[string]bool{}, unrot: map[int64]map[string]bool{}, zombies: map[int]bool{},
-		aliasEver: map[int64]map[string]map[string]bool{}, aliasCut: map[int64]map[string]bool{}}
+		aliasEver: map[int64]map[string]map[string]bool{}, aliasCut: map[int64]map[string]bool{}, hadOpen: map[int64]map[string]bool{}}
 	for _, o := range orgs {
 		s.tables[o] = map[string]bool{}
 		s.alias[o] = map[string]map[string]bool{}
@@ -488,6 +489,7 @@ func newSpec() *spec {
 		s.unrot[o] = map[string]bool{}
 		s.aliasEver[o] = map[string]map[string]bool{}
 		s.aliasCut[o] = map[string]bool{}
+		s.hadOpen[o] = map[string]bool{}
 	}
 	return s
 }
@@ -600,6 +602,7 @@ type opCtx struct {
 	viaCurOnly map[string]bool // named only through a current alias
 	viaRemoved map[string]bool // not named, but an alias that used to point to the table matches
 	cutAlias   map[string]bool // named through a current alias from which another index was removed
+	hadOpen    map[string]bool // index of the org was deleted while it had unrotated data (stale columns until restart: known finding)
 	complete   bool            // the completeness side of the oracle applies to this op
 }
 
@@ -623,7 +626,10 @@ func (g *gen) emit(op Op, c *opCtx) int {
 func (g *gen) ctxFor(X int64, expr string) *opCtx {
 	c := &opCtx{named: map[string]bool{}, restarted: g.s.restarted, aliasDirs: g.s.adir[X] && X != 0,
 		liveBefore: map[int]bool{}, aliasOf: map[string]map[string]bool{},
-		viaCurOnly: map[string]bool{}, viaRemoved: map[string]bool{}, cutAlias: map[string]bool{}}
+		viaCurOnly: map[string]bool{}, viaRemoved: map[string]bool{}, cutAlias: map[string]bool{}, hadOpen: map[string]bool{}}
+	for t, v := range g.s.hadOpen[X] {
+		c.hadOpen[t] = v
+	}
 	c.complete = g.complete && (!g.s.restarted || g.completePost)
 	for id, l := range g.s.live {
 		c.liveBefore[id] = l
@@ -790,6 +796,11 @@ func (g *gen) delete(X int64, expr string, rotateFirst bool) {
 			}
 		}
 		delete(g.s.tables[X], t)
+		for _, o := range orgs {
+			if g.s.unrot[o][t] {
+				g.s.hadOpen[o][t] = true
+			}
+		}
 		g.s.delPhase[X][t] = true
 		delete(g.s.recreated[X], t)
 		delete(g.s.unrot[X], t)
@@ -803,7 +814,26 @@ func (g *gen) restart() {
 	for _, o := range orgs {
 		g.s.delPhase[o] = map[string]bool{}
 		g.s.recreated[o] = map[string]bool{}
+		g.s.hadOpen[o] = map[string]bool{}
 	}
+}
+
+// k rotations of one index: k rotated segments of (X, t)
+func (g *gen) burst(X int64, t string, k int) {
+	for i := 0; i < k; i++ {
+		g.ingest(X, t, g.r.Range(1, 2))
+		g.rotate()
+	}
+}
+
+// every query form over the name and over "*"
+func (g *gen) askIndex(X int64, t string) {
+	g.query("q_cols", X, t)
+	g.query("q_search", X, t)
+	g.query("q_stats", X, t)
+	g.query("q_spl", X, t)
+	g.query("q_cols", X, "*")
+	g.query(vhlib.Pick(g.r, []string{"q_search", "q_stats"}), X, "*")
 }
 func (g *gen) rotate0() {
 	for _, o := range orgs {
@@ -896,6 +926,18 @@ func genMain(r *vhlib.Rng) (*scenario, *spec) {
 				g.s.adir[X] = true
 			}
 		case w < 84:
+			if r.Chance(45) { // an index with 3-5 rotated segments, often deleted by name right away
+				t := vhlib.Pick(r, idxPool[X])
+				if g.s.delPhase[X][g.s.resolve(X, t)] || len(g.s.alias[X][t]) > 0 {
+					continue
+				}
+				g.burst(X, t, r.Range(3, 5))
+				if r.Chance(65) && !g.otherOrgHas(X, t) && len(g.dspec(X, t)) == 1 {
+					g.delete(X, t, true)
+					g.askIndex(X, t)
+				}
+				continue
+			}
 			g.rotate()
 		case w < 86:
 			t := vhlib.Pick(r, idxPool[X])
@@ -1160,6 +1202,50 @@ func genAliasLifeFor(r *vhlib.Rng, X int64, withRestart bool) (*scenario, *spec)
 	if withRestart {
 		g.restart()
 		ask(true)
+	}
+	return g.sc, g.s
+}
+
+// ---- an index with 3-7 rotated segments is deleted (no known-defect input): nothing of it may be left in
+// search, stats, SPL or the column listing, by name and by "*", before and after a restart, and a later
+// index of the same name starts empty.
+func genMultiSegDelete(r *vhlib.Rng) (*scenario, *spec) {
+	g := &gen{r: r, s: newSpec(), sc: &scenario{Stream: "multi_segment_delete"}, complete: true}
+	X := vhlib.Pick(r, orgs)
+	pool := append([]string{}, idxPool[X]...)
+	for i := len(pool) - 1; i > 0; i-- {
+		j := r.Intn(i + 1)
+		pool[i], pool[j] = pool[j], pool[i]
+	}
+	t, u := pool[0], pool[1]
+	k := vhlib.Pick(r, []int{3, 4, 5, 6, 7, 3, 7})
+	// another org gets differently named indexes only (a same-named index would be the known cross-org delete)
+	Y := orgs[(int(X)+1)%3]
+	for _, n := range idxPool[Y] {
+		if n != t && r.Chance(40) {
+			g.ingest(Y, n, 1)
+		}
+	}
+	for i := 0; i < k; i++ {
+		g.ingest(X, t, r.Range(1, 2))
+		if r.Chance(50) {
+			g.ingest(X, u, 1)
+		}
+		g.rotate()
+	}
+	g.ingest(X, u, 1)
+	g.askIndex(X, t)
+	g.delete(X, t, true)
+	g.askIndex(X, t)
+	g.askIndex(X, u)
+	if r.Chance(70) {
+		g.restart()
+		g.askIndex(X, t)
+		g.ingest(X, t, 2)
+		if r.Chance(50) {
+			g.rotate()
+		}
+		g.askIndex(X, t)
 	}
 	return g.sc, g.s
 }
@@ -1432,7 +1518,11 @@ func evalScenario(sum *vhlib.Summary, mu *sync.Mutex, si int, sc *scenario, obs 
 				case !namedAny:
 					fail(classifyUnnamed(c, op.Expr, tn), fmt.Sprintf("column listing org=%d expr=%q lists column %s of index %q, which the expression does not name", op.Org, op.Expr, cn, tn), i)
 				case !hasLive:
-					fail("delete_left_column_names", fmt.Sprintf("column listing org=%d expr=%q still lists column %s of deleted index %q", op.Org, op.Expr, cn, tn), i)
+					cl := "delete_left_rotated_segment_columns"
+					if c.hadOpen[tn] {
+						cl = "delete_left_column_names" // stale unrotated-segment info: known finding
+					}
+					fail(cl, fmt.Sprintf("column listing org=%d expr=%q still lists column %s of deleted index %q", op.Org, op.Expr, cn, tn), i)
 				}
 			}
 		case "q_list":
@@ -1628,6 +1718,7 @@ func main() {
 	mk(wrap(genAliasLife), 4*nKnown)
 	mk(wrap(genAliasRestartOrg0), 2)
 	mk(wrap(genMatcher), 2)
+	mk(wrap(genMultiSegDelete), nKnown+2)
 
 	// run
 	par := 6
